@@ -312,7 +312,14 @@ def _check(case):
             if err:
                 return err
             sB = Problem().minimize(eB).solve(method="L-BFGS-B")
-            if sL.status != sB.status or list(sL.values) != list(sB.values):
+            same_point = (list(sL.values) == list(sB.values) and sL.objective_value is not None and sB.objective_value is not None
+                          and abs(sL.objective_value - sB.objective_value) <= 1e-9 * (1 + abs(sB.objective_value))
+                          and all(abs(sL.values[k_] - sB.values[k_]) <= 1e-5 for k_ in sB.values))
+            if sL.status != sB.status and same_point:
+                # L-BFGS-B's line search can end "ABNORMAL" at the optimum when rounding noise of a 450-term sum exceeds the
+                # attainable decrease: both builds reached the same point and value, only the solver's verdict differs
+                classes.append("solver-verdict-differs-at-the-same-point")
+            elif sL.status != sB.status or list(sL.values) != list(sB.values):
                 return Result.violation("solve-differs", f"left-deep {sL.status.value} {list(sL.values)}, balanced {sB.status.value}; {desc}", classes)
             if sL.status.value == "optimal" and abs(sL.objective_value - sB.objective_value) > 1e-6 * (1 + abs(sB.objective_value)):
                 return Result.violation("solve-differs", f"objective {sL.objective_value!r} vs balanced {sB.objective_value!r}; {desc}", classes)
